@@ -53,16 +53,24 @@ def exc_name(e):
     return f"{type(e).__module__}.{type(e).__name__}"
 
 
+def stable(paths):
+    """the order among paths that mention an anonymous subquery follows its generated name subquery_<hash>, which the properties
+    exempt: such lists are re-sorted on their canonical text; all other lists keep the order the code returned"""
+    if any("subquery_N" in c for p in paths for c in p):
+        return sorted(paths, key=lambda p: (p[-1], p[0], p))
+    return paths
+
+
 def dump(sql, dialect="ansi", metadata=None, silent=False, full=True, provider=None):
     """everything a user can observe; an exception is part of the observation"""
     try:
         lr = runner_of(sql, dialect, metadata, silent, provider)
         out = tables(lr)
-        out["C"] = paths(lr)
+        out["C"] = stable(paths(lr))
         out["n"] = len(lr.statements())
         if full:
-            out["Cfull"] = paths(lr, exclude_path_ending_in_subquery=False)
-            out["Cnosq"] = paths(lr, exclude_subquery_columns=True)
+            out["Cfull"] = stable(paths(lr, exclude_path_ending_in_subquery=False))
+            out["Cnosq"] = stable(paths(lr, exclude_subquery_columns=True))
             out["cyT"] = cyto(lr.to_cytoscape())
             out["cyC"] = cyto(lr.to_cytoscape("column"))
             out["str"] = canon(str(lr))
